@@ -20,6 +20,9 @@ static double S1of(const MSSMNoFV_onshell& m) {
 }
 
 struct Miss { double dcha, dchi, dsv, dsm, msm; };
+// observation hook in convert_to_onshell() (GM2CALC_VERIF builds): the model right after the fit of me2(1,1), before the final Yukawa update
+namespace gm2calc { namespace verif { extern void (*after_convert_me2)(const MSSMNoFV_onshell&); } }
+static thread_local double hook_me2_residual = -1;   // right-like smuon mass against its pole mass at that moment (-1: hook not reached)
 static Miss misses(const MSSMNoFV_onshell& b) {
    const auto& ph = b.get_physical();
    Miss m;
@@ -33,19 +36,28 @@ static Miss misses(const MSSMNoFV_onshell& b) {
    return m;
 }
 
+static void on_after_convert_me2(const MSSMNoFV_onshell& m) {
+   MSSMNoFV_onshell c(m); c.calculate_MSm();
+   hook_me2_residual = misses(c).dsm;
+}
+
 int main(int argc, char** argv) {
    vh::Args a(argc, argv);
    vh::Out o(a); out = &o;
    gen::CerrCapture cap;
+   gm2calc::verif::after_convert_me2 = &on_after_convert_me2;
    for (long i = a.first(); i < a.last(); ++i) {
       o.cur = i;
       vh::Rng r(a.seed, a.worker, i);
       ++o.evaluations;
       MSSMNoFV_onshell A;
-      const double tb = r.LU(2, 60), mu = r.sign() * r.LU(100, 3000), m1 = r.sign() * r.LU(100, 3000), m2 = r.sign() * r.LU(100, 3000);
+      // one case in five in the region where the fit of the right-handed smuon parameter is hardest: left and right parameters within 3 %, large mu tan(beta)
+      // (the fixed-point iteration fails there and the root finder takes over; nearly maximal mixing)
+      const bool hard = r.chance(0.2);
+      const double tb = hard ? r.LU(20, 60) : r.LU(2, 60), mu = r.sign() * (hard ? r.LU(1000, 3000) : r.LU(100, 3000)), m1 = r.sign() * r.LU(100, 3000), m2 = r.sign() * r.LU(100, 3000);
       A.set_TB(tb); A.set_Mu(mu); A.set_MassB(m1); A.set_MassWB(m2); A.set_MassG(r.LU(500, 5000)); A.set_MA0(r.LU(200, 3000)); A.set_scale(r.LU(200, 3000));
       double ml[3], me[3];
-      for (int g = 0; g < 3; ++g) { ml[g] = r.LU(100, 3000); me[g] = r.LU(100, 3000); A.set_ml2(g, g, ml[g] * ml[g]); A.set_me2(g, g, me[g] * me[g]);
+      for (int g = 0; g < 3; ++g) { ml[g] = r.LU(100, 3000); me[g] = (hard && g == 1) ? ml[g] * (1 + r.U(-0.03, 0.03)) : r.LU(100, 3000); A.set_ml2(g, g, ml[g] * ml[g]); A.set_me2(g, g, me[g] * me[g]);
          const double q = r.LU(500, 5000); A.set_mq2(g, g, q * q); A.set_mu2(g, g, q * q * 1.1); A.set_md2(g, g, q * q * 0.9); A.set_Ae(g, g, r.U(-1, 1) * 500); A.set_Au(g, g, r.U(-1, 1) * 1000); A.set_Ad(g, g, r.U(-1, 1) * 1000); }
       const double pert = 0.05, prec = std::pow(10.0, r.U(-10, -4));
       const double pm[5] = {1 + r.U(-pert, pert), 1 + r.U(-pert, pert), 1 + r.U(-pert, pert), 1 + r.U(-pert, pert), 1 + r.U(-pert, pert)};
@@ -106,10 +118,12 @@ int main(int argc, char** argv) {
       // SLHA-type model: A's pole spectrum (masses and mixings) with perturbed guesses of the five fitted parameters
       MSSMNoFV_onshell B(A); B.get_problems().clear();
       B.set_Mu(mu * pm[0]); B.set_MassB(m1 * pm[1]); B.set_MassWB(m2 * pm[2]); B.set_ml2(1, 1, ml[1] * ml[1] * pm[3]); B.set_me2(1, 1, me[1] * me[1] * pm[4]);
+      hook_me2_residual = -1;
       try { B.convert_to_onshell(prec, 1000); }
       catch (const Error& e) { ++o.inconclusive; o.count(std::string("conversion-rejected(outside the quantifier): ") + e.what()); continue; }   // e.g. a stau tachyon for the perturbed mu
+      const double fit_residual = hook_me2_residual;
       ++o.conclusive;
-      const std::string order = std::string(me[1] < ml[1] ? "R-lighter" : "R-heavier") + (std::fabs(m1) < std::min(std::fabs(m2), std::fabs(mu)) ? "|bino-lightest" : "|bino-not-lightest") + "|prec" + vh::decade(prec);
+      const std::string order = std::string(hard ? "near-degenerate-LR|" : "") + std::string(me[1] < ml[1] ? "R-lighter" : "R-heavier") + (std::fabs(m1) < std::min(std::fabs(m2), std::fabs(mu)) ? "|bino-lightest" : "|bino-not-lightest") + "|prec" + vh::decade(prec);
       const bool warn = B.get_problems().have_warning();
       const double amu_b = calculate_amu_1loop(B) + calculate_amu_2loop(B);
       if (warn) {
@@ -128,24 +142,13 @@ int main(int argc, char** argv) {
       if (!(m.dsv <= tol)) o.fail("C05:pole:muon-sneutrino", "muon-sneutrino pole mass missed by " + vh::num(m.dsv) + " GeV without warning", w);
       bool lagmiss = false;
       if (!(m.dsm <= tol)) {
-         // known finding (yukawa-lag): the miss is small and contracts under repeated conversion of the converted model; a wrong
-         // state selection (GeV-size error that does not contract) fails this predicate and gets the unlisted key
-         bool lag = m.dsm <= 0.5 * m.msm;   // (sanity cap only; the discriminating part is the contraction: misses up to 2.5 GeV on a 45 GeV smuon were seen at mu tan(beta) ~ 1.4e5 GeV)
-         MSSMNoFV_onshell C(B); double dprev = m.dsm, best = m.dsm; const double goal = std::max(prec, 5e-10); bool reached = false; int passes = 0;
-         for (int pass = 0; pass < 80 && lag; ++pass) {
-            try { C.convert_to_onshell(prec, 1000); } catch (const Error&) { lag = false; break; }
-            const double d2 = misses(C).dsm; ++passes; best = std::min(best, d2);
-            if (a.verbose) std::fprintf(stderr, "reconversion pass %d: right-smuon miss %.3e (previous %.3e)\n", passes, d2, dprev);
-            if (d2 <= goal) break;
-            // geometric contraction (ratio 5 and more on most points, 4.1 observed at a strongly mixed point: mu tan(beta) m_mu ~ 10 x the diagonal splitting)
-            // until it stalls near the precision floor of the conversion itself (where it may also rise again: 1.1e-3 -> 5.9e-8 -> 1.2e-5 was seen)
-            if (!(d2 <= dprev / 1.5)) break;
-            dprev = d2;
-         }
-         reached = best <= std::max(10 * goal, 1e-3 * m.dsm);   // a wrongly selected state (GeV-size error that re-conversion reproduces) does not get there
-         lag = lag && reached;
+         // known finding (yukawa-lag), identified by its mechanism: observed through the hook in convert_to_onshell(), the fit of me2(1,1) had reached the
+         // requested precision - the right-like smuon sat on its pole mass - and the final update of the Yukawa couplings moved it away again, unreported.
+         // A fit that had NOT reached the precision and is not reported either (wrong state, misreported accuracy) keeps the plain key.
+         const bool lag = fit_residual >= 0 && fit_residual <= tol;
+         w.d("right_smuon_residual_after_the_me2_fit(hook)", fit_residual);
          lagmiss = lag;
-         w.i("reconversion_passes", passes).i("contracts", lag);
+         w.i("fit_had_converged", lag);
          o.cell("pole:right-smuon|" + order + (lag ? "|yukawa-lag" : "|MISS"), m.dsm / prec, &w);
          o.fail(lag ? "C05:smuonR-pole:yukawa-lag" : "C05:pole:right-smuon", "right-like smuon pole mass missed by " + vh::num(m.dsm) + " GeV (precision " + vh::num(prec) + ") without warning", w, m.dsm / m.msm);
       } else o.cell("pole:right-smuon|" + order, m.dsm / prec, &w);
